@@ -164,6 +164,10 @@ impl CommandParser {
     /// Check if a parameter type is a Tauri-specific type that should be skipped
     /// This checks the actual syn::Type to properly handle both imported and fully-qualified types
     fn is_tauri_parameter_type(&self, ty: &Type) -> bool {
+        // (AppHandle) is AppHandle
+        if let Type::Paren(paren) = ty {
+            return self.is_tauri_parameter_type(&paren.elem);
+        }
         if let Type::Path(type_path) = ty {
             let segments = &type_path.path.segments;
 
@@ -257,6 +261,8 @@ impl CommandParser {
     /// Convert a Type to its string representation
     fn type_to_string(ty: &Type) -> String {
         match ty {
+            // (T) is T
+            Type::Paren(paren) => Self::type_to_string(&paren.elem),
             Type::Path(type_path) => {
                 let segments: Vec<String> = type_path
                     .path
@@ -315,6 +321,10 @@ impl CommandParser {
 
     /// Check if a type is Option<T>
     fn is_optional_type(&self, ty: &Type) -> bool {
+        // (Option<T>) is Option<T>
+        if let Type::Paren(paren) = ty {
+            return self.is_optional_type(&paren.elem);
+        }
         if let Type::Path(type_path) = ty {
             if let Some(segment) = type_path.path.segments.last() {
                 return segment.ident == "Option";
